@@ -375,17 +375,45 @@ func (s *space) canonical(ci caseInfo) *caseT {
 	return &c
 }
 
-// each calls f for every case of the space with its ordinal; cases whose form variant is a no-op are
-// skipped (they would repeat the canonical case) but keep their ordinal.
-func (s *space) each(f func(ord int64, ci caseInfo, c caseT) bool) {
+// formApplies reports whether the spelling variant changes the case (without building it).
+func formApplies(ci caseInfo) bool {
+	switch ci.form {
+	case formExplicitUnset:
+		// first policies spell UNSET by leaving out the mtls field
+		if ci.mesh == 1 || ci.ns == 1 {
+			return true
+		}
+		for _, p := range ci.wlPol {
+			if p.Mode == mUnset && p.NilMtls {
+				return true
+			}
+		}
+		return false
+	case formEmptySelector:
+		if ci.mesh != 0 || ci.ns != 0 {
+			return true
+		}
+		for _, p := range ci.secPol {
+			if p.Sel == selNone {
+				return true
+			}
+		}
+		return false
+	}
+	return true
+}
+
+// each calls f for every case of the space with its ordinal; the case itself is built on demand with
+// s.build(ci). Cases whose spelling variant is a no-op are skipped (they would repeat the canonical
+// case) but keep their ordinal.
+func (s *space) each(f func(ord int64, ci caseInfo) bool) {
 	cont := true
 	engine.Product(s.dimsA, func(ord int64, idx []int) bool {
 		ci := caseInfo{block: 'A', mesh: idx[0], ns: idx[1], wl: idx[2], second: idx[3], form: idx[4], wlPol: s.wlSingle[idx[2]], secPol: s.second[idx[3]]}
-		c, ok := s.build(ci)
-		if !ok {
+		if !formApplies(ci) {
 			return true
 		}
-		cont = f(ord, ci, c)
+		cont = f(ord, ci)
 		return cont
 	})
 	if !cont {
@@ -393,11 +421,10 @@ func (s *space) each(f func(ord int64, ci caseInfo, c caseT) bool) {
 	}
 	engine.Product(s.dimsB, func(ord int64, idx []int) bool {
 		ci := caseInfo{block: 'B', mesh: idx[0], ns: idx[1], wl: idx[2], form: idx[3], wlPol: s.wlDouble[idx[2]]}
-		c, ok := s.build(ci)
-		if !ok {
+		if !formApplies(ci) {
 			return true
 		}
-		return f(s.sizeA+ord, ci, c)
+		return f(s.sizeA+ord, ci)
 	})
 }
 
